@@ -144,6 +144,12 @@ def handmade(ci, sk):
         vkd += [(K.spki((1, 3, H), pt), "F15-spki-curve-arc-" + tg), (K.spki(ci.oid, pt, alg=(1, 2, 840, H)), "F15-spki-algorithm-arc-" + tg),
                 (K.spki((2, H), pt), "F15-spki-curve-second-arc-" + tg),
                 (t(0x30, t(0x30, oid(K.OID_ECPUB) + i(H)) + K.enc_bits(pt)), "F15-spki-integer-for-oid-" + tg)]
+    # a SubjectPublicKeyInfo whose BIT STRING holds the RAW x||y encoding (no 04 prefix: invalid inside DER), also with an off-curve
+    # body of that length, with a 0x04 body one byte short, and the same under PEM armour (branch found unreached by the measured
+    # raise-site coverage of this check)
+    raw = K.enc_point(ci, x, y, "raw")
+    vkd += [(K.spki(ci.oid, raw), "spki-raw-point"), (K.spki(ci.oid, bytes(len(raw))), "spki-raw-zeros"), (K.spki(ci.oid, pt[:-1]), "spki-point-short")]
+    vkp.append((phdr + __import__("base64").encodebytes(K.spki(ci.oid, raw)) + b"-----END PUBLIC KEY-----\n", "spki-raw-point-pem"))
     skp += [(hdr + __import__("base64").encodebytes(t(0x30, i((1 << 16000) - 1 - (1 << 15999)) + t(4, db) + t(0xA0, oid(ci.oid)))) + ftr, "F15-pem-ssleay-version-huge")]
     vkp += [(phdr + __import__("base64").encodebytes(K.spki((1, 3, (1 << 16000) - 1), pt)) + b"-----END PUBLIC KEY-----\n", "F15-pem-spki-curve-arc-huge")]
     return {"sk_from_der": skd + f6, "sk_from_pem": skp, "vk_from_pem": vkp, "vk_from_der": f6 + vkd + [(b"\x30\x03\x30\x01", "overrun")],
